@@ -502,6 +502,10 @@ def check_modal_repetition(ctx, db):
             continue
         blk = c.parent
         nxt = blk.c[blk.c.index(c) + 1] if blk is not None and blk.k == 'CompoundStmt' and blk.c.index(c) + 1 < len(blk.c) else None
+        if nxt is None:
+            case = next((a for a in c.ancestors() if a.k == 'CaseStmt'), None)
+            if case is not None and not any(x.k == 'CallExpr' and x.callee == 'gdstk::allocate_clear' for x in case.walk()):
+                continue  # XGEOMETRY: the record is skipped, no element is created, the modal repetition is still updated
         if nxt is None or not (nxt.k == 'CXXMemberCallExpr' and (nxt.callee or '').endswith('::copy_from') and norm(nxt.args[0].text()) in ('modal_repetition', 'Repetition{modal_repetition}')):
             bad.append('%s: the element does not copy the modal repetition' % c.loc())
     ctx.check(len(calls) >= 10 and not bad, 'R-CLONE', 'read_oas/repetition-through-modal', f.loc(), 'all %d repetition fields are read into the modal repetition, which the element then copies' % len(calls), '; '.join(bad[:3]))
